@@ -182,12 +182,14 @@ pub fn builder_plans(ctx: &mut Ctx, opts: &RunOpts) {
         plans.push(vec![BEntry::Add(k("a"), Val::U8(1)), BEntry::Add(k("b"), Val::U8(2)), BEntry::Add(vec![0x05], Val::U8(3)), BEntry::Add(vec![0xfe, 0xff, 0x80, 0x81], Val::B(vec![0x11; pad]))]);
     }
     let mut n = 0u64;
-    for (kt, scheme) in kinds() {
-        for p in &plans {
-            n += 1;
-            if !ctx.mine(n) {
-                continue;
-            }
+    // plan by plan, every key type in turn IN ONE SHARD: a build of one key type comes right after a build of
+    // another (state a build leaves behind for the next, of whatever type, would show)
+    for p in &plans {
+        n += 1;
+        if !ctx.mine(n) {
+            continue;
+        }
+        for (kt, scheme) in kinds() {
             if ctx.expired() {
                 return;
             }
@@ -582,6 +584,9 @@ pub fn c06(ctx: &mut Ctx) {
 pub fn c09(ctx: &mut Ctx) {
     let opts = RunOpts { full_state_checks: false, keep_states: false };
     let q = ctx.quick();
+    // a scheme whose signatures alone exceed the limit, and one with tiny signatures, BEFORE everything else: what
+    // the size checks remember of them must not leak into the builds and updates of the other key types
+    long_signature_histories(ctx, &opts);
     let k = |s: &str| s.as_bytes().to_vec();
     let ops: Vec<Op> = vec![
         Op::Insert(k("big"), Val::B(vec![0x42; 30])),
@@ -889,7 +894,7 @@ pub fn random_plan(mut r: &mut rand_chacha::ChaCha8Rng, nent: usize) -> Vec<BEnt
 /// ONE builder object, a build after every single call (own key, every third time the other key): each result
 /// must be exactly what a FRESH builder given the same calls returns (those are judged against the model by
 /// the plans above), and passes the complete state check.
-fn incremental_builder(ctx: &mut Ctx) {
+pub fn incremental_builder(ctx: &mut Ctx) {
     use crate::keys::*;
     use crate::obs::observe;
     use enr::Enr;
@@ -915,7 +920,7 @@ fn incremental_builder(ctx: &mut Ctx) {
                 }
                 Ok((Ok((Ok(a), e)), Ok(Ok(f)))) => {
                     if a.pairs != f.pairs || a.seq != f.seq || a.node_id != f.node_id || a.verify != f.verify {
-                        for prop in ["C08", "C05", "C04", "C07", "C10"] {
+                        for prop in ["C08", "C05", "C04", "C07", "C10", "C14"] {
                             ctx.violate(prop, "reused-builder-differs-from-fresh-builder", &format!("{}/call-{n}", KK::name()), || {
                                 format!("{}: build after call #{n} on a re-used builder: seq {} vs {}, pairs equal {}, node id equal {}, verify {} vs {}", KK::name(), a.seq, f.seq, a.pairs == f.pairs, a.node_id == f.node_id, a.verify, f.verify)
                             }, replay);
@@ -958,6 +963,20 @@ fn incremental_builder(ctx: &mut Ctx) {
         // a call that changes ONLY the sequence number, right after a build
         let at = 1 + below(&mut r, plan.len() as u64) as usize;
         plan.insert(at.min(plan.len()), BEntry::Seq(2 + below(&mut r, 1000)));
+        // an ill-typed reserved entry (the build after it must FAIL) that a later call corrects (the build after
+        // that must succeed with everything that was set before)
+        if below(&mut r, 2) == 0 {
+            let (bad, good) = match below(&mut r, 4) {
+                0 => (BEntry::AddRaw(b"tcp".to_vec(), vec![0x82, 0x00, 0x01]), BEntry::Tcp4(7)),
+                1 => (BEntry::Add(b"udp".to_vec(), Val::Str("hello".into())), BEntry::Udp4(8)),
+                2 => (BEntry::AddRaw(b"ip".to_vec(), vec![0x83, 1, 2, 3]), BEntry::Ip4([1, 2, 3, 4])),
+                _ => (BEntry::AddRaw(b"id".to_vec(), vec![0x82, b'v', b'5']), BEntry::AddRaw(b"id".to_vec(), vec![0x82, b'v', b'4'])),
+            };
+            let a = below(&mut r, plan.len() as u64 + 1) as usize;
+            plan.insert(a, bad);
+            let b = a + 1 + below(&mut r, (plan.len() - a) as u64) as usize;
+            plan.insert(b.min(plan.len()), good);
+        }
         match kt {
             KT::K256 => go::<K256K>(ctx, scheme, &plan, i),
             #[cfg(feature = "libsecp")]
